@@ -118,6 +118,25 @@ Proof.
 Qed.
 Print Assumptions C28_mutex_redis_partial.
 
+(* PARTIAL, in terms the callers control ("no unlock after own expiry"): if every Unlock
+   (for the keys whose flag is set) and every IsLockedTTL is issued only for keys the caller
+   currently believes to hold — never after its own TTL elapsed, never a second time — then
+   no hazard can occur and the property holds for every interleaving. *)
+Theorem C28_mutex_redis_polite_partial : forall ops,
+  rd_polite ops rd_init no_belief = true ->
+  let s := fst (fst (rd_run ops rd_init no_belief)) in
+  let b := snd (fst (rd_run ops rd_init no_belief)) in
+  snd (rd_run ops rd_init no_belief) = [] /\
+  forall k o1 o2,
+    (believerb b (rd_now s) o1 k = true -> heldb (rd_tbl s) (rd_now s) k o1 = true) /\
+    (believerb b (rd_now s) o1 k = true -> believerb b (rd_now s) o2 k = true -> o1 = o2).
+Proof.
+  intros ops Hp s b.
+  pose proof (rd_polite_no_hazard ops rd_init no_belief (inv_init 0) Hp) as Hev.
+  split; auto. apply C28_mutex_redis_partial. exact Hev.
+Qed.
+Print Assumptions C28_mutex_redis_polite_partial.
+
 (* PARTIAL: an Unlock that meets no live foreign entry under a set flag frees nobody else *)
 Theorem C28_release_redis_partial : forall s o' ks k o,
   rd_hazard s (OUnlock o' ks) = [] -> o' <> o ->
@@ -200,6 +219,7 @@ Proof. cbv zeta. split; [apply nth_In; vm_compute; lia|]. repeat split; vm_compu
 Example C28_redis_nonvacuous :
   let ops := [OLock 1 5 [0; 1]; OTick 5; OLock 2 5 [1]; OUnlock 2 [1]; OIsLockedTTL 1 9 [0; 1]; OTick 6] in
   let x := rd_run ops rd_init no_belief in
+  rd_polite ops rd_init no_belief = true /\
   snd x = [] /\ believerb (snd (fst x)) (rd_now (fst (fst x))) 1 1 = true /\
   heldb (rd_tbl (fst (fst x))) (rd_now (fst (fst x))) 1 1 = true.
 Proof. cbv zeta. repeat split; vm_compute; reflexivity. Qed.
